@@ -182,4 +182,57 @@ func TestC03Zoo(t *testing.T) {
 		}
 	}
 	rep.Stat("reentries_observed", reentries)
+	// one placeholder variable serving one target after another: f, then g, then f again - each time the placeholder
+	// must be the original of the function mocked now, not of an earlier one
+	var sh []*ZooTarget
+	for ti := range ZooTargets {
+		if ZooTargets[ti].InstallShared != nil && !ZooTargets[ti].Recursive {
+			sh = append(sh, &ZooTargets[ti])
+		}
+	}
+	phRanges = append(phRanges, vmon.Range{Start: ZooSharedPh(), End: ZooSharedPh() + 512})
+	vmon.GrowStack(300)
+	for i := 0; i+1 < len(sh); i++ {
+		for step, tg := range []*ZooTarget{sh[i], sh[i+1], sh[i]} {
+			rep.Journal(map[string]interface{}{"part": "zoo-shared-placeholder", "target": tg.Name, "step": step, "crashkey": "C03/zoo-crash"})
+			rep.JournalSync()
+			exp := map[int]int{}
+			for _, a := range []int{1, 2, 5, 9} {
+				exp[a] = tg.Call(a)
+			}
+			var cnt int64
+			b := mocker.Create()
+			var ierr interface{}
+			func() { defer func() { ierr = recover() }(); tg.InstallShared(b, &cnt) }()
+			if ierr != nil {
+				rep.Stat("zoo_shared_refused", 1)
+				b.Reset()
+				continue
+			}
+			for _, a := range []int{1, 2, 5, 9} {
+				c0 := atomic.LoadInt64(&cnt)
+				got := tg.Call(a)
+				n := atomic.LoadInt64(&cnt) - c0
+				rep.Eval(1)
+				if got != tr(exp[a]) || n != 1 {
+					rep.Violate("C03/origin-wrong-result", fmt.Sprintf("%s (%s) mocked with a placeholder that served %s before (step %d of f,g,f): %s(%d) = %d with %d callback run(s), want %d with 1",
+						tg.Name, tg.Shape, sh[i+(1-step%2)].Name, step, tg.Name, a, got, n, tr(exp[a])), map[string]interface{}{"target": tg.Name, "shape": tg.Shape, "regime": "shared-placeholder", "step": step})
+					break
+				}
+			}
+			b.Reset()
+			for _, a := range []int{1, 2, 5, 9} {
+				if got := tg.Call(a); got != exp[a] {
+					rep.Violate("C03/not-original-after-reset", fmt.Sprintf("%s(%d) = %d want %d after Reset (shared placeholder)", tg.Name, a, got, exp[a]), nil)
+				}
+			}
+			rep.Stat("zoo_shared_placeholder_steps", 1)
+		}
+		if d := img.DiffOutside(phRanges); len(d) != 0 {
+			rep.Violate("C03/image-differs-after-reset", fmt.Sprintf("shared placeholder, %s/%s: %v", sh[i].Name, sh[i+1].Name, d), nil)
+		}
+	}
+	if len(sh) > 1 {
+		rep.Class("zoo/shared-placeholder/f-g-f")
+	}
 }
